@@ -53,6 +53,8 @@ package main
 //	                                        `del` on an empty pool is `tick k`
 //	crash n                                 drop the Node, RestartNode on the same storage object (Applied = 0)
 //	snap n back                             CreateSnapshot + Compact of n's storage at applied-back (stable entries only)
+//	delx k                                  like del, but a MsgSnap is lost at the receiver instead of delivered
+//	snaprep n m 0|1                         ReportSnapshot(m, Finish|Failure) on node n (what the transport tells the sender)
 //	iso n | isol n | heal                   cut node n (isol: the current leader) off: traffic from/to it is lost; heal all
 //	tickall                                 one tick on every node (id order) - time passes everywhere, leases expire
 //	... cr=0|a|e<k>|h|s  (suffix of tick/hup/prop/xfer/del/dup) crash inside the Ready of this event:
@@ -174,7 +176,7 @@ func genRaft(rng *rand.Rand, tier string, emit func(string)) {
 		for left > 0 {
 			n := 10 + rng.Intn(40)
 			crashy = 0
-			switch rng.Intn(11) {
+			switch rng.Intn(12) {
 			case 0: // steady replication
 				mix(n, 20, 12, 22, 1, 2, 1, 0)
 			case 1, 2, 8, 9: // election storm, possibly with an isolated node (often the leader: the generator cannot know)
@@ -202,7 +204,55 @@ func genRaft(rng *rand.Rand, tier string, emit func(string)) {
 					out("snap %d %d", i, rng.Intn(2))
 				}
 				out("heal")
+				if rng.Intn(2) == 0 {
+					// the snapshot transfer is reported as finished/failed at arbitrary instants, delivered or not
+					mix(4+rng.Intn(8), 10, 30, 0, 0, 0, 20, 0)
+					for i := 0; i < N; i++ {
+						for j := 0; j < N; j++ {
+							if i != j && rng.Intn(2) == 0 {
+								out("snaprep %d %d %d", i, j, rng.Intn(4)/3)
+							}
+						}
+					}
+				}
 				mix(n, 10, 25, 5, 0, 1, 0, 0)
+			case 11: // a snapshot that is lost at the receiver but reported as transferred: the follower must not be counted
+				fl := rng.Intn(N)
+				out("iso %d", fl)
+				if rng.Intn(2) == 0 { // the cut-off node is (maybe) an old leader with unreplicated entries
+					out("prop %d", fl)
+					out("prop %d", fl)
+				}
+				for r := 0; r < 2*et+2; r++ {
+					out("tickall")
+					for rng.Intn(3) > 0 {
+						del(30)
+					}
+				}
+				mix(n, 10, 10, 40, 0, 0, 0, 0)
+				mix(10, 0, 10, 0, 0, 0, 0, 0)
+				for i := 0; i < N; i++ {
+					out("snap %d 0", i)
+				}
+				out("heal")
+				for r := 0; r < 7; r++ {
+					out("tickall")
+					for j := 0; j < 2*N; j++ {
+						out("delx 0")
+					}
+				}
+				for i := 0; i < N; i++ {
+					if i != fl {
+						out("snaprep %d %d 0", i, fl)
+					}
+				}
+				for r := 0; r < 2; r++ {
+					out("tickall")
+					for j := 0; j < 2*N; j++ {
+						out("delx 0")
+					}
+				}
+				mix(n/2, 10, 20, 10, 0, 0, 0, 0)
 			case 4: // crashes between events and inside Readies
 				crashy = 60
 				mix(n, 25, 15, 18, 2, 3, 2, 6)
@@ -577,6 +627,30 @@ func (s *rsess) event(f []string) string {
 			return s.answer(nil)
 		}
 		return s.cycle(nd, "xfer", nil, func() { nd.n.TransferLeadership(ctx, lead, to.id) }, cr)
+	case "snaprep":
+		// the transport reports the outcome of a snapshot transfer to the sender (transport/rafthttp reports
+		// SnapshotFinish once the HTTP post succeeded - whether or not the receiver's raft ever handles the
+		// message); in the abstraction a pure Progress change (stutter) followed by whatever the leader sends
+		nd := s.nodes[arg(1)%N]
+		to := s.nodes[arg(2)%N]
+		st := raft.SnapshotFinish
+		if arg(3)%2 == 1 {
+			st = raft.SnapshotFailure
+		}
+		s.c.Note("snaprep")
+		gp := pb.Group{NodeId: to.id, Name: "g", GroupId: 7, RaftReplicaId: to.id}
+		return s.cycle(nd, "snaprep", nil, func() { nd.n.ReportSnapshot(to.id, gp, st) }, cr)
+	case "delx": // like del, but a snapshot message is lost at the receiver (its transfer may still be reported as finished)
+		if len(s.pool) > 0 {
+			k := arg(1) % len(s.pool)
+			if s.pool[k].Type == pb.MsgSnap {
+				s.pool = append(s.pool[:k:k], s.pool[k+1:]...)
+				s.c.Note("snapshot-lost-at-receiver")
+				return s.answer(nil)
+			}
+		}
+		f[0] = "del"
+		return s.event(f)
 	case "del", "dup":
 		if len(s.pool) == 0 { // nothing in flight: let time pass instead
 			s.c.Note("deliver-empty-pool->tick")
